@@ -105,6 +105,7 @@ inductive GE where
 inductive GL where
   | var (x : String)
   | index (a i : GE)
+  | field (e : GE) (f : String)
   | blank
   deriving Repr, Inhabited
 
@@ -296,6 +297,14 @@ def goLen (h : Heap) : GV → R GV
   | .ref a => match heapGet h a with | some o => .ok (.int o.kvs.length) | none => .error (.stuck "len: dangling")
   | _ => .error (.stuck "len")
 
+def insertSorted (s : String) : List String → List String
+  | [] => [s]
+  | t :: rest => if s < t then s :: t :: rest else t :: insertSorted s rest
+
+def insertionSort : List String → List String
+  | [] => []
+  | s :: rest => insertSorted s (insertionSort rest)
+
 /-- builtins and the library functions the translated code calls -/
 def builtin (f : String) (args : List GV) (h : Heap) : Option (R (List GV × Heap)) :=
   match f, args with
@@ -318,6 +327,13 @@ def builtin (f : String) (args : List GV) (h : Heap) : Option (R (List GV × Hea
     | some o => some (.ok ([], heapSet h a { o with kvs := mdelete k o.kvs }))
     | none => some (.error (.stuck "delete: dangling"))
   | "delete", [.nil, _] => some (.ok ([], h))
+  | "sort.Strings", [x] =>
+    match sliceElems x with
+    | some xs =>
+      match xs.mapM (fun v => match v with | .str s => some s | _ => none) with
+      | some ss => some (.ok ([if xs.isEmpty then x else .slice ((insertionSort ss).map GV.str)], h))
+      | none => some (.error (.stuck "sort.Strings: not strings"))
+    | none => some (.error (.stuck "sort.Strings"))
   | "makemap", [.str ty] => some (.ok ([.ref h.length], h ++ [{ ty := ty, kvs := [] }]))
   | "makeslice", [.str _, .int 0] => some (.ok ([.slice []], h))
   | "makeslice", _ => some (.error (.stuck "make: non-zero length"))
@@ -591,6 +607,15 @@ def assignTo : Nat → Prog → Env → Env → Heap → Bool → GL → GV → 
             | none => .error (.stuck "store: dangling")
           | .nil => .error (.panic "assignment to entry in nil map")
           | _ => .error (.stuck "store into a non-map")
+    | .field e f =>
+      match eval1 n p g env h e with
+      | .error er => .error er
+      | .ok (.ref ad, h1) =>
+        match heapGet h1 ad with
+        | some o => .ok (env, heapSet h1 ad { o with kvs := minsert (.str f) v o.kvs })
+        | none => .error (.stuck "field store: dangling")
+      | .ok (.nil, _) => .error (.panic "nil dereference")
+      | .ok _ => .error (.stuck "field store into a non-struct")
 
 def assignAll : Nat → Prog → Env → Env → Heap → Bool → List GL → List GV → R (Env × Heap)
   | 0, _, _, _, _, _, _, _ => .error .fuel
@@ -652,7 +677,14 @@ def execS : Nat → Prog → Env → Env → Heap → GS → R (Flow × Env × H
           match assignTo n p g env h1 false (.var x) v with
           | .error er => .error er
           | .ok (env1, h2) => .ok (.next, env1, h2)
-      | _ => .error (.stuck "op-assignment to a non-variable")
+      | .field e f =>
+        match eval1 n p g env h (.bin op (.field e f) rhs) with
+        | .error er => .error er
+        | .ok (v, h1) =>
+          match assignTo n p g env h1 false (.field e f) v with
+          | .error er => .error er
+          | .ok (env1, h2) => .ok (.next, env1, h2)
+      | _ => .error (.stuck "op-assignment to an unsupported place")
     | .varDecl names zero => .ok (.next, names.map (fun x => (x, zero)) ++ env, h)
     | .expr e =>
       match evalE n p g env h e with
